@@ -494,7 +494,13 @@ func (a *Activation) memcpy(st *State, sort string, dst, doff, src, soff, n Term
 	srcN := g.define("mcs", src)
 	soffN := g.define("mcf", soff)
 	nN := g.define("mcn", n)
-	// definition by cases on every location
+	// (1) index-wise copy (terms keep the shape elem(a, off+i), which triggers of user
+	//     invariants match); (2) frame: every other location is unchanged
+	di := bvop("bvadd", doffN, T(bvSort(64), "i"))
+	si := bvop("bvadd", soffN, T(bvSort(64), "i"))
+	g.assertLine(T(SBool, fmt.Sprintf(
+		"(forall ((i (_ BitVec 64))) (! (=> (bvult i %s) (= (select %s (elem %s %s)) (select %s (elem %s %s)))) :pattern ((select %s (elem %s %s)))))",
+		nN.S, hn.S, dstN.S, di.S, hold.S, srcN.S, si.S, hn.S, dstN.S, di.S)), hn)
 	g.assertLine(T(SBool, fmt.Sprintf(
 		"(forall ((l Loc)) (! (= (select %s l) (ite (and (= (kind l) 2) (= (elem_arr l) %s) (bvule %s (elem_idx l)) (bvult (bvsub (elem_idx l) %s) %s)) (select %s (elem %s (bvadd %s (bvsub (elem_idx l) %s)))) (select %s l))) :pattern ((select %s l))))",
 		hn.S, dstN.S, doffN.S, doffN.S, nN.S, hold.S, srcN.S, soffN.S, doffN.S, hold.S, hn.S)), hn)
